@@ -144,6 +144,9 @@ def parse_output(out):
             r["time_s"] = float(m.group(1))
         for fm in re.finditer(r"Failed Checks: (.*)\n\s*File: \"([^\"]*)\", line (\d+)", body):
             r["failed_checks"].append(dict(desc=fm.group(1).strip(), file=fm.group(2), line=int(fm.group(3))))
+        if r["status"] == "failed" and not r["failed_checks"] and "encountered no panics" in body:
+            # #[kani::should_panic] harness: the panic the harness exists to observe is no longer reachable
+            r["failed_checks"].append(dict(desc="should_panic harness: the expected panic is not reachable any more (the guard it observes is gone)", file="", line=0))
         res[name] = r
     return res
 
